@@ -1245,3 +1245,20 @@ def _instance_defaults(repo, ob, failure):
 
 
 GENERATORS.insert(0, ("C18.instance.", _instance_defaults))
+
+
+def _group_transform_expr(repo, ob, failure):
+    """an expression or variable in a group's transform is evaluated like in any other attribute"""
+    import re as _re
+    doc = '<svg><var t="7"/><g id="g" transform="translate({{1 + 2}} $t)"><rect wh="4"/></g><rect xy="#g|h 1" wh="1"/></svg>'
+    r = run_svgdx(repo, doc, args=("--border", "0"))
+    if r["rc"] != 0:
+        return {"input": doc, "args": ["--border", "0"], "observed": "rejected: " + r["err"].strip()[-100:], "expected": 'transform="translate(3 7)", viewBox 3 7 6 4'}
+    m = _re.search(r'viewBox="([^"]*)"', r["out"])
+    if not m or m.group(1) != "3 7 6 4":
+        return {"input": doc, "args": ["--border", "0"], "observed": "viewBox=%r" % (m and m.group(1)), "expected": "viewBox='3 7 6 4'"}
+    return None
+
+
+GENERATORS.insert(0, ("C14.group.box", _group_transform_expr))
+GENERATORS.insert(0, ("C08.group.box", _group_transform_expr))
